@@ -240,6 +240,11 @@ func newEnv(o envOpts) (*env, error) {
 	e.pumpStop = make(chan struct{})
 	e.pumpDone = make(chan struct{})
 	go e.pump()
+	// serf.Create announces the local node (member-join of itself); it is not part of any schedule: wait
+	// until the agent's event loop has dispatched it
+	if !poll(10*time.Second, func() bool { return e.evrec.count() >= 1 }) {
+		return nil, errors.New("the agent did not dispatch the start-up member-join")
+	}
 	return e, nil
 }
 
